@@ -29,8 +29,51 @@ def make_net(M, g: G.NetGen, shape, rng, random_ops=True):
     return shp, desc, built
 
 
+def mutate_params_inplace(built, desc, rng):
+    """Changes parameters of the live element objects in place (plain public attributes) and
+    mirrors the change in `desc`; returns a short label.  A memo of anything derived from the
+    parameters that is not refreshed would make the next step disagree with the reference."""
+    from vf.refmodel import topology
+
+    ins, outs, org, dst = topology(desc)
+    kind = rng.choice(("scale_turnrates", "change_turnrates", "lanes", "length", "fd", "capacity"))
+    if kind == "scale_turnrates":
+        for n in desc["nodes"]:
+            if outs[n]:
+                c = rng.choice((0.25, 2.5, 7.0))
+                for l in outs[n]:
+                    l["beta"] = l["beta"] * c
+                    built.links[l["id"]].turnrate = l["beta"]
+    elif kind == "change_turnrates":
+        for l in desc["links"]:
+            l["beta"] = round(rng.uniform(0.1, 2.5), 3)
+            built.links[l["id"]].turnrate = l["beta"]
+    elif kind == "lanes":
+        for l in desc["links"]:
+            if rng.random() < 0.5:
+                l["lam"] = rng.choice((1, 2, 3, 4, 5))
+                built.links[l["id"]].lam = l["lam"]
+    elif kind == "length":
+        for l in desc["links"]:
+            l["L"] = round(rng.uniform(0.4, 1.6), 3)
+            built.links[l["id"]].L = l["L"]
+    elif kind == "fd":
+        for l in desc["links"]:
+            l["rho_crit"] = round(rng.uniform(25.0, 40.0), 2)
+            l["v_free"] = round(rng.uniform(90.0, 130.0), 2)
+            l["a"] = round(rng.uniform(1.2, 3.2), 3)
+            el = built.links[l["id"]]
+            el.rho_crit, el.v_free, el.a = l["rho_crit"], l["v_free"], l["a"]
+    else:
+        for o in desc["origins"]:
+            if o["kind"] in ("ramp", "simple"):
+                o["C"] = round(rng.uniform(1200.0, 4500.0), 1)
+                built.origins[o["id"]].C = o["C"]
+    return kind
+
+
 def numpy_steps(M, rec, rng, n_nets, draws=3, opts_prob=0.0, on_case=None, regimes=None,
-                before_case=None,
+                before_case=None, mutate_prob=0.35,
                 scalar_shapes=("vec1", "0d", "float")):
     """n_nets generated valid networks x `draws` value draws stepped with the NumPy
     engine from user arrays."""
@@ -65,6 +108,27 @@ def numpy_steps(M, rec, rng, n_nets, draws=3, opts_prob=0.0, on_case=None, regim
                 on_case(case, built)
             if rec.counters.get("numpy_cases", 0) <= 2:
                 rec.sample({k2: case[k2] for k2 in ("shape", "regime", "desc", "vals", "pars")})
+        # same network objects, parameters changed in place, stepped again
+        if rng.random() < mutate_prob:
+            import copy as _copy
+
+            desc2 = _copy.deepcopy(desc)
+            built.desc = desc2
+            what = mutate_params_inplace(built, desc2, rng)
+            regime, vals = g.values(desc2)
+            pars = g.pars()
+            rec.count("numpy_cases_after_inplace_parameter_change")
+            rec.seen("inplace_parameter_changes", what)
+            case = {"desc": desc2, "vals": vals, "pars": pars, "opts": {}, "engine": "numpy", "regime": regime,
+                    "shape": shp, "after_inplace_change_of": what}
+            if before_case:
+                before_case(case, built)
+            try:
+                built.net.step(init_conditions=drive.np_init(built, vals, "vec1"), engine=NE(), **drive.step_pars(pars))
+            except Exception:
+                pass
+            if on_case:
+                on_case(case, built)
 
 
 def symbolic_steps(M, rec, rng, symvals, n_nets, points=3, symtypes=("SX", "MX"), on_case=None,
@@ -180,3 +244,40 @@ def closed_loop(M, rec, rng, n_sims, steps, on_step=None, before_case=None):
                         vals[eid][name] = v
         if not alive:
             rec.count("sim_aborted_by_exception")
+
+
+def repo_tests(rec, props, prefix="repotests_"):
+    """Runs the repository's own test-suite (subprocess, sym_metanet from $SMN_SRC) with
+    the in-situ monitors of `props` recording; merges what they observed into `rec`
+    (violations included; counters prefixed)."""
+    import json
+    import os
+    import subprocess
+    import tempfile
+
+    from vf.env import REPO_DIR, SMN_SRC, VERIF_DIR
+
+    tests_root = REPO_DIR if os.path.isdir(os.path.join(REPO_DIR, "tests")) else "/repo"
+    fd, out = tempfile.mkstemp(prefix="vf_plugin_", suffix=".json")
+    os.close(fd)
+    env = dict(os.environ, PYTHONPATH=os.pathsep.join([SMN_SRC, VERIF_DIR]), VF_PLUGIN_PROPS=",".join(props),
+               VF_PLUGIN_OUT=out, PYTHONDONTWRITEBYTECODE="1", SMN_SRC=SMN_SRC)
+    try:
+        subprocess.run(["/venv/bin/python", "-m", "pytest", "-q", "-p", "no:cacheprovider", "-p", "vf.pytest_plugin",
+                        "--continue-on-collection-errors", "--timeout=600", "tests"],
+                       cwd=tests_root, env=env, stdout=subprocess.DEVNULL, stderr=subprocess.DEVNULL, timeout=900)
+        with open(out) as f:
+            st = json.load(f)
+    except Exception as e:
+        rec.count(prefix + "failed_to_run")
+        rec.seen(prefix + "failed_to_run", repr(e)[:150])
+        return
+    finally:
+        try:
+            os.unlink(out)
+        except OSError:
+            pass
+    st["counters"] = {prefix + k: v for k, v in st["counters"].items()}
+    st["cover"] = {prefix + k: v for k, v in st["cover"].items()}
+    st["samples"] = []
+    rec.merge_state(st)
